@@ -214,14 +214,20 @@ Record seccfg := mkCfg {
   sc_chtimes_split : bool;   (* Chtimes: [R] lookup, [W] set the time on THAT node *)
   sc_open_finish : bool;     (* OpenFile: the handle is finished AFTER the locked lookup/creation section:
                                 O_APPEND seek and O_TRUNC truncate of THAT node, one file-mutex section each *)
-  sc_rdnames_split : bool    (* Readdirnames: [dir mutex] fix the list of entries, then read their CURRENT names *)
+  sc_rdnames_split : bool;   (* Readdirnames: [dir mutex] fix the list of entries, then read their CURRENT names *)
+  sc_rename_parents_split : bool;  (* Rename: [old parent's mutex] the entry leaves its old directory, LATER [new parent's
+                                      mutex] it enters the new one (a directory handle lists under the directory's
+                                      mutex, not under mu: it can run between the two) *)
+  sc_rename_kids_split : bool      (* Rename of a directory: every descendant is unregistered [its directory's mutex] and
+                                      registered again [the same mutex, a second hold], one after the other *)
 }.
 
 Definition ln_cfg_today : seccfg :=
   mkCfg (Z.eqb lin_openfile_split 1) (Z.eqb lin_openfile_setmode 1) (Z.eqb lin_mkdir_setmode 1)
         (negb (Z.eqb lin_removeall_locks 1)) (negb (Z.eqb lin_chmod_locks 1)) (negb (Z.eqb lin_chtimes_locks 1))
-        (Z.eqb lin_openfile_finish_outside 1) (Z.eqb lin_readdirnames_outside 1).
-Definition ln_cfg_atomic : seccfg := mkCfg false false false false false false false false.
+        (Z.eqb lin_openfile_finish_outside 1) (Z.eqb lin_readdirnames_outside 1)
+        (Z.eqb lin_rename_parents_apart 1) (Z.eqb lin_rename_children_apart 1).
+Definition ln_cfg_atomic : seccfg := mkCfg false false false false false false false false false false.
 
 Inductive lpc :=
 | LnStart
@@ -234,7 +240,10 @@ Inductive lpc :=
 | LnSetTime (f : nat) (t : Z)                   (* Chtimes: write lock taken, set the time of node f *)
 | LnOpenSeek (f h : nat)                        (* OpenFile: handle h on node f exists, no lock held; O_APPEND seek next *)
 | LnOpenTrunc (f h : nat)                       (* OpenFile: O_TRUNC truncate of node f through handle h next *)
-| LnRdNames (refs : list nat) (e : option err). (* Readdirnames: the entries are fixed; read their names *)
+| LnRdNames (refs : list nat) (e : option err)  (* Readdirnames: the entries are fixed; read their names *)
+| LnRenMoved (f : nat)                          (* Rename: node f has left its old parent; everything else is to come *)
+| LnRenKidOut (f : nat) (ds : list nat) (removes : list str)   (* Rename: descendants ds still carry their old names *)
+| LnRenKidIn (f d : nat) (ds : list nat) (removes : list str). (* Rename: descendant d is out of its directory *)
 
 Definition ln_ret (st : lstate) (slot : option nat) (r : res) : lstate * (lpc + res) :=
   ((fst st, lin_bind (snd st) slot r), inr (lin_proj r)).
@@ -325,6 +334,35 @@ Definition ln_rdn_list (s : mst) (i : nat) (count : Z) : mst * (list nat * optio
 (* FileInfo.Name() of every entry, now *)
 Definition ln_rdn_names (s : mst) (refs : list nat) : list str :=
   map (fun r => match get_node s r with Some n => fi_name (finfo_of n) | None => [] end) refs.
+
+(* ---- Rename whose directory changes are separate holds of the directories' mutexes ----
+   NOTE.  The section machine has no lock: between two sections of one call it lets ANY call of
+   another thread run.  All sections of a Rename lie inside ONE write-locked section of mu, so in
+   the code only calls that do not take mu - the operations on handles - can run between them.
+   The split shapes below are used for refutation witnesses in which nothing but listings
+   through directory handles runs between Rename's sections (stated with the theorems); the
+   general theorem needs both switches off.  With [sc_rename_kids_split] alone the entry's two
+   parents are held across the children's steps in the code: what the machine shows of THEM
+   between those steps is not a behaviour of the code, what it shows of the directories of the
+   renamed subtree is. *)
+(* the tail of m_rename once every descendant has its new name: the old keys go, the entry
+   enters its new parent *)
+Definition ln_ren_finish (s4 : mst) (f : nat) (old : str) (removes : list str) : mst :=
+  let s5 := set_data s4 (fold_left (fun d key => alist_del key d) removes (mdata s4)) in
+  let s6 := set_data s5 (alist_del old (mdata s5)) in
+  reg s6 f 0.
+
+(* m_rename after the entry has left its old parent: new name, new key, then the descendants *)
+Definition ln_ren_moved (k : seccfg) (m : mst) (sl : lslots) (f : nat) (old new : str) : lstate * (lpc + res) :=
+  let s2 := upd_node m f (with_name new) in
+  let s3 := set_data s2 (alist_set new f (mdata s2)) in
+  if sc_rename_kids_split k then ((s3, sl), inl (LnRenKidOut f (find_descendants s3 old) []))
+  else
+    match rename_descs old new s3 (find_descendants s3 old) [] with
+    | None => ((s3, sl), inr RPanic)
+    | Some (s4, false, _) => ((s4, sl), inr (RErr (E KNotExist)))
+    | Some (s4, true, removes) => ((ln_ren_finish s4 f old removes, sl), inr ROk)
+    end.
 
 Definition ln_sec (k : seccfg) (st : lstate) (c : lop) (pc : lpc) : lstate * (lpc + res) :=
   let m := lin_now (fst st) in
@@ -426,6 +464,44 @@ Definition ln_sec (k : seccfg) (st : lstate) (c : lop) (pc : lpc) : lstate * (lp
       end
     else ln_atomic st c
   | LnRdNames refs e, _ => (st, inr (RNames (ln_rdn_names m refs) e))
+  (* Rename, the pieces of m_rename in its own order: [old parent] the entry leaves; new name and
+     key; per descendant [its directory] out, [its directory] in under the new name; the old keys
+     go and [new parent] the entry enters *)
+  | LnStart, Rename p q =>
+    if sc_rename_parents_split k || sc_rename_kids_split k then
+      let old := normalize_path p in
+      let new := normalize_path q in
+      match lookup m old with
+      | None => (st, inr (RErr (EW KNotExist)))
+      | Some f =>
+        if beqb old new then (st, inr ROk) else
+        if below_file m new then (st, inr (RErr (EW KENOTDIR))) else
+        match unregister m old with
+        | None => (st, inr RPanic)
+        | Some (s1, false) => ((s1, sl), inr (RErr (E KNotExist)))
+        | Some (s1, true) =>
+          if sc_rename_parents_split k then ((s1, sl), inl (LnRenMoved f))
+          else ln_ren_moved k s1 sl f old new
+        end
+      end
+    else ln_atomic st c
+  | LnRenMoved f, Rename p q => ln_ren_moved k m sl f (normalize_path p) (normalize_path q)
+  | LnRenKidOut f ds removes, Rename p q =>
+    match ds with
+    | [] => ((ln_ren_finish m f (normalize_path p) removes, sl), inr ROk)
+    | d :: r =>
+      match unregister m (node_name m d) with
+      | None => (st, inr RPanic)
+      | Some (s1, false) => ((s1, sl), inr (RErr (E KNotExist)))
+      | Some (s1, true) => ((s1, sl), inl (LnRenKidIn f d r removes))
+      end
+    end
+  | LnRenKidIn f d r removes, Rename p q =>
+    let dname := node_name m d in
+    let newname := str_replace1 dname (normalize_path p) (normalize_path q) in
+    let s2 := upd_node m d (with_name newname) in
+    let s3 := set_data s2 (alist_set newname d (mdata s2)) in
+    ((reg s3 d 0, sl), inl (LnRenKidOut f r (removes ++ [dname])))
   (* every other method: one critical section *)
   | LnStart, _ => ln_atomic st c
   | _, _ => (st, inr RPanic)
@@ -441,6 +517,7 @@ Definition ln_lin_ok (k : seccfg) (o : op) : bool :=
   | RemoveAll _ => negb (sc_rmall_split k)
   | Chmod _ _ => negb (sc_chmod_split k)
   | Chtimes _ _ => negb (sc_chtimes_split k)
+  | Rename _ _ => negb (sc_rename_parents_split k) && negb (sc_rename_kids_split k)
   | _ => true
   end.
 
